@@ -9,8 +9,43 @@
    plumbing between the sections ([preSendCh], the per-child forwarders, the
    broadcast to the children) is not modelled here (C13). *)
 From Moc Require Import Base Match.
-From Moc.Gen Require Import GenMerge.
 Open Scope Z_scope.
+
+(* ------------------------------------------------------------------ *)
+(** * The guards of the code, as the model uses them.
+
+    Each [h_x] is the hand-written reading of one condition of handler.go.
+    The guard translator regenerates the same conditions from the source as
+    [Gen.GenMerge.g_x]; MergeProofs.v proves [g_x = h_x] for every one of
+    them (section "ties"), so an edited or vanished condition breaks a named
+    proof obligation, while this file — and with it the correspondence check
+    and the oracles — still compiles and keeps judging the implementation. *)
+
+Definition h_merge_too_few (n : Z) : bool := n <? 2.                      (* len(handlers) < 2 *)
+Definition h_eose_already (all : bool) : bool := all.                       (* s.AllEOSE(sub) *)
+Definition h_eose_incomplete (all : bool) : bool := negb all.               (* !s.AllEOSE(sub) *)
+Definition h_event_unsendable (sendable : bool) : bool := negb sendable.    (* !s.IsSendableEventMsg(..) *)
+Definition h_ok_not_ready (ready : bool) : bool := negb ready.              (* !s.Ready(id) *)
+Definition h_count_not_ready (ready : bool) : bool := negb ready.           (* !s.Ready(sub, idx) *)
+Definition h_ok_has_slot (len : Z) : bool := len >? 0.                      (* len(stat.s[eventID]) > 0 *)
+Definition h_ok_setmsg_absent (len : Z) : bool := len =? 0.                 (* len(msgs) == 0 *)
+Definition h_ok_ready_absent (len : Z) : bool := len =? 0.
+Definition h_ok_msg_absent (len : Z) : bool := len =? 0.
+Definition h_ok_is_accepted (accepted : bool) : bool := accepted.           (* msg.Accepted *)
+Definition h_ok_any_rejected (nrejected : Z) : bool := nrejected >? 0.      (* len(ngs) > 0 *)
+Definition h_req_seteose_absent (len : Z) : bool := len =? 0.               (* len(stat.eose[subID]) == 0 *)
+Definition h_req_alleose_missing (present : bool) : bool := negb present.   (* !ok *)
+Definition h_req_alleose_delete (res : bool) : bool := res.                 (* res *)
+Definition h_ev_all_eose (all : bool) : bool := all.
+Definition h_ev_child_eose (child_eose : bool) : bool := child_eose.
+Definition h_ev_has_last (has_last : bool) : bool := has_last.              (* last != nil *)
+Definition h_ev_older_first (res : Z) : bool := res <? 0.                   (* res < 0 *)
+Definition h_ev_ts_decreased (res : Z) : bool := res >? 0.                  (* res > 0 *)
+Definition h_ev_seen_reject (seen_nil seen_has : bool) : bool := seen_nil || seen_has.
+Definition h_ev_done (done : bool) : bool := done.
+Definition h_ev_nomatch (matched : bool) : bool := negb matched.
+Definition h_cnt_set_absent (len : Z) : bool := len =? 0.
+Definition h_cnt_ready_absent (len : Z) : bool := len =? 0.
 
 (* ------------------------------------------------------------------ *)
 (** * Messages *)
@@ -102,14 +137,14 @@ Definition rs_clear (r : rstate) (sub : str) : rstate :=
     is present it deletes the subscription's state *)
 Definition rs_all_eose (r : rstate) (sub : str) : rstate * bool :=
   let eoses := assoc sub (rs_eose r) in
-  if g_req_alleose_missing (isSome eoses) then (r, true) else
+  if h_req_alleose_missing (isSome eoses) then (r, true) else
   let res := negb (existsb negb (vlist eoses)) in
-  if g_req_alleose_delete res then (rs_clear r sub, res) else (r, res).
+  if h_req_alleose_delete res then (rs_clear r sub, res) else (r, res).
 
 (** SetEOSE; [None] = index out of range *)
 Definition rs_set_eose (r : rstate) (sub : str) (i : nat) : option rstate :=
   let eoses := vlist (assoc sub (rs_eose r)) in
-  if g_req_seteose_absent (zlen eoses) then Some r else
+  if h_req_seteose_absent (zlen eoses) then Some r else
   match upd_nth i true eoses with
   | None => None
   | Some l' => Some (rs_with_eose r (m_set sub l' (rs_eose r)))
@@ -141,8 +176,8 @@ Definition rs_last_of (r : rstate) (sub : str) : option event :=
 Definition rs_order (r : rstate) (sub : str) (e : event) : option rstate :=
   let last := rs_last_of r sub in
   let res := match last with Some l => cmpZ (ev_ts l) (ev_ts e) | None => 0 end in
-  if g_ev_has_last (isSome last) && g_ev_older_first res then None else
-  let r2 := if g_ev_has_last (isSome last) && g_ev_ts_decreased res
+  if h_ev_has_last (isSome last) && h_ev_older_first res then None else
+  let r2 := if h_ev_has_last (isSome last) && h_ev_ts_decreased res
             then rs_with_seen r (m_set sub [] (rs_seen r)) else r in
   Some (rs_with_last r2 (m_set sub (Some e) (rs_last r2))).
 
@@ -150,7 +185,7 @@ Definition rs_order (r : rstate) (sub : str) (e : event) : option rstate :=
     outer [None] = panic *)
 Definition rs_dedup_limit (r3 : rstate) (sub : str) (e : event) : option (rstate * bool) :=
   let seen := assoc sub (rs_seen r3) in
-  if g_ev_seen_reject (negb (isSome seen)) (optb seen (mem_str (ev_id e))) then Some (r3, false) else
+  if h_ev_seen_reject (negb (isSome seen)) (optb seen (mem_str (ev_id e))) then Some (r3, false) else
   match seen with
   | None => None                       (* assignment to an entry of a nil map *)
   | Some ids =>
@@ -158,23 +193,23 @@ Definition rs_dedup_limit (r3 : rstate) (sub : str) (e : event) : option (rstate
     match assoc sub (rs_matcher r4) with
     | None => None                     (* method call on a nil interface *)
     | Some ms =>
-      if g_ev_done (lms_done ms) then Some (r4, false) else
+      if h_ev_done (lms_done ms) then Some (r4, false) else
       match lms_limit_match ms e with
       | Panic => None
       | Ok (ms', matched) =>
           let r5 := rs_with_matcher r4 (m_set sub ms' (rs_matcher r4)) in
-          if g_ev_nomatch matched then Some (r5, false) else Some (r5, true)
+          if h_ev_nomatch matched then Some (r5, false) else Some (r5, true)
       end
     end
   end.
 
 Definition rs_is_sendable (r : rstate) (i : nat) (sub : str) (e : event) : option (rstate * bool) :=
   let '(r1, all) := rs_all_eose r sub in
-  if g_ev_all_eose all then Some (r1, true) else
+  if h_ev_all_eose all then Some (r1, true) else
   match rs_is_eose r1 sub i with
   | None => None
   | Some child_eose =>
-    if g_ev_child_eose child_eose then Some (r1, false) else
+    if h_ev_child_eose child_eose then Some (r1, false) else
     match rs_order r1 sub e with
     | None => Some (r1, false)
     | Some r3 => rs_dedup_limit r3 sub e
@@ -188,13 +223,13 @@ Record ostate := mkOS { os_size : nat; os_s : list (str * list (option okm)) }.
 
 (** TrySetEventID: does nothing when the id already has a slot vector *)
 Definition os_try_set (o : ostate) (id : str) : ostate :=
-  if g_ok_has_slot (zlen (vlist (assoc id (os_s o)))) then o
+  if h_ok_has_slot (zlen (vlist (assoc id (os_s o)))) then o
   else mkOS (os_size o) (m_set id (repeat None (os_size o)) (os_s o)).
 
 (** SetMsg *)
 Definition os_set_msg (o : ostate) (i : nat) (m : okm) : option ostate :=
   let msgs := vlist (assoc (ok_id m) (os_s o)) in
-  if g_ok_setmsg_absent (zlen msgs) then Some o else
+  if h_ok_setmsg_absent (zlen msgs) then Some o else
   match upd_nth i (Some m) msgs with
   | None => None
   | Some l' => Some (mkOS (os_size o) (m_set (ok_id m) l' (os_s o)))
@@ -203,7 +238,7 @@ Definition os_set_msg (o : ostate) (i : nat) (m : okm) : option ostate :=
 (** Ready *)
 Definition os_ready (o : ostate) (id : str) : bool :=
   let msgs := vlist (assoc id (os_s o)) in
-  if g_ok_ready_absent (zlen msgs) then false else negb (existsb isNone msgs).
+  if h_ok_ready_absent (zlen msgs) then false else negb (existsb isNone msgs).
 
 (** the loop of Msg: accepting and rejecting replies, each in child order;
     [None] = nil dereference *)
@@ -215,7 +250,7 @@ Fixpoint ok_partition (l : list (option okm)) : option (list okm * list okm) :=
       match ok_partition r with
       | None => None
       | Some (oks, ngs) =>
-          if g_ok_is_accepted (ok_acc m) then Some (m :: oks, ngs) else Some (oks, m :: ngs)
+          if h_ok_is_accepted (ok_acc m) then Some (m :: oks, ngs) else Some (oks, m :: ngs)
       end
   end.
 
@@ -229,10 +264,10 @@ Definition join_oks (l : list okm) : option okm :=
 (** Msg; [None] = panic *)
 Definition os_msg (o : ostate) (id : str) : option okm :=
   let msgs := vlist (assoc id (os_s o)) in
-  if g_ok_msg_absent (zlen msgs) then None else
+  if h_ok_msg_absent (zlen msgs) then None else
   match ok_partition msgs with
   | None => None
-  | Some (oks, ngs) => if g_ok_any_rejected (zlen ngs) then join_oks ngs else join_oks oks
+  | Some (oks, ngs) => if h_ok_any_rejected (zlen ngs) then join_oks ngs else join_oks oks
   end.
 
 (** ClearEventID *)
@@ -250,7 +285,7 @@ Definition cs_set_sub (c : cstate) (sub : str) : cstate :=
 (** SetCountMsg *)
 Definition cs_set_msg (c : cstate) (i : nat) (m : cntm) : option cstate :=
   let counts := vlist (assoc (c_sub m) (cs_counts c)) in
-  if g_cnt_set_absent (zlen counts) then Some c else
+  if h_cnt_set_absent (zlen counts) then Some c else
   match upd_nth i (Some m) counts with
   | None => None
   | Some l' => Some (mkCS (cs_size c) (m_set (c_sub m) l' (cs_counts c)))
@@ -259,7 +294,7 @@ Definition cs_set_msg (c : cstate) (i : nat) (m : cntm) : option cstate :=
 (** Ready *)
 Definition cs_ready (c : cstate) (sub : str) : bool :=
   let counts := vlist (assoc sub (cs_counts c)) in
-  if g_cnt_ready_absent (zlen counts) then false else negb (existsb isNone counts).
+  if h_cnt_ready_absent (zlen counts) then false else negb (existsb isNone counts).
 
 Fixpoint all_some {A} (l : list (option A)) : option (list A) :=
   match l with
@@ -300,7 +335,7 @@ Definition init (n : nat) : state :=
 
 (** NewMergeHandler panics for fewer than two handlers *)
 Definition new_session (n : nat) : option state :=
-  if g_merge_too_few (Z.of_nat n) then None else Some (init n).
+  if h_merge_too_few (Z.of_nat n) then None else Some (init n).
 
 Definition with_rs s r := mkSt r (st_os s) (st_cs s) (st_dead s).
 Definition with_os s o := mkSt (st_rs s) o (st_cs s) (st_dead s).
@@ -310,12 +345,12 @@ Definition kill s := mkSt (st_rs s) (st_os s) (st_cs s) true.
 (** handleSendEOSEMsg *)
 Definition send_eose (s : state) (i : nat) (sub : str) : state * option smsg :=
   let '(r1, a1) := rs_all_eose (st_rs s) sub in
-  if g_eose_already a1 then (with_rs s r1, None) else
+  if h_eose_already a1 then (with_rs s r1, None) else
   match rs_set_eose r1 sub i with
   | None => (kill s, None)
   | Some r2 =>
       let '(r3, a2) := rs_all_eose r2 sub in
-      if g_eose_incomplete a2 then (with_rs s r3, None) else (with_rs s r3, Some (SEose sub))
+      if h_eose_incomplete a2 then (with_rs s r3, None) else (with_rs s r3, Some (SEose sub))
   end.
 
 (** handleSendEventMsg *)
@@ -323,7 +358,7 @@ Definition send_event (s : state) (i : nat) (sub : str) (e : event) : state * op
   match rs_is_sendable (st_rs s) i sub e with
   | None => (kill s, None)
   | Some (r', sendable) =>
-      if g_event_unsendable sendable then (with_rs s r', None) else (with_rs s r', Some (SEvent sub e))
+      if h_event_unsendable sendable then (with_rs s r', None) else (with_rs s r', Some (SEvent sub e))
   end.
 
 (** handleSendOKMsg *)
@@ -331,7 +366,7 @@ Definition send_ok (s : state) (i : nat) (m : okm) : state * option smsg :=
   match os_set_msg (st_os s) i m with
   | None => (kill s, None)
   | Some o1 =>
-      if g_ok_not_ready (os_ready o1 (ok_id m)) then (with_os s o1, None) else
+      if h_ok_not_ready (os_ready o1 (ok_id m)) then (with_os s o1, None) else
       match os_msg o1 (ok_id m) with
       | None => (kill s, None)
       | Some ret => (with_os s (os_clear o1 (ok_id m)), Some (SOk ret))
@@ -343,7 +378,7 @@ Definition send_count (s : state) (i : nat) (m : cntm) : state * option smsg :=
   match cs_set_msg (st_cs s) i m with
   | None => (kill s, None)
   | Some c1 =>
-      if g_count_not_ready (cs_ready c1 (c_sub m)) then (with_cs s c1, None) else
+      if h_count_not_ready (cs_ready c1 (c_sub m)) then (with_cs s c1, None) else
       match cs_msg c1 (c_sub m) with
       | None => (kill s, None)
       | Some ret => (with_cs s (cs_clear c1 (c_sub m)), Some (SCount ret))
@@ -572,39 +607,27 @@ Definition wf_trace (n : nat) (t : list input) : Prop := trace_ok n t /\ wf_scan
 (* ------------------------------------------------------------------ *)
 (** * Guard of C09: no two requests with one id in flight *)
 
-(** [pend]: event ids (resp. COUNT subscription ids) with a request in
-    flight, each with the children that have replied *)
-Fixpoint no_overlap_scan (n : nat) (t : list input) (pe pc : list (str * list nat)) : bool :=
-  match t with
-  | [] => true
-  | CEvent id :: t' =>
-      match assoc id pe with
-      | Some _ => false
-      | None => no_overlap_scan n t' ((id, []) :: pe) pc
-      end
-  | CCount sub :: t' =>
-      match assoc sub pc with
-      | Some _ => false
-      | None => no_overlap_scan n t' pe ((sub, []) :: pc)
-      end
-  | Child i (SOk m) :: t' =>
-      match assoc (ok_id m) pe with
-      | None => no_overlap_scan n t' pe pc
-      | Some l =>
-          if covers n (i :: l) then no_overlap_scan n t' (remove_key (ok_id m) pe) pc
-          else no_overlap_scan n t' ((ok_id m, i :: l) :: remove_key (ok_id m) pe) pc
-      end
-  | Child i (SCount m) :: t' =>
-      match assoc (c_sub m) pc with
-      | None => no_overlap_scan n t' pe pc
-      | Some l =>
-          if covers n (i :: l) then no_overlap_scan n t' pe (remove_key (c_sub m) pc)
-          else no_overlap_scan n t' pe ((c_sub m, i :: l) :: remove_key (c_sub m) pc)
-      end
-  | _ :: t' => no_overlap_scan n t' pe pc
-  end.
+Definition no_cevent (id : str) (w : list input) : Prop := forall x, In x w -> is_cevent_of id x = false.
+Definition no_ccount (sub : str) (w : list input) : Prop := forall x, In x w -> is_ccount_of sub x = false.
 
-Definition no_overlap (n : nat) (t : list input) : Prop := no_overlap_scan n t [] [] = true.
+(** after the history [pre] no EVENT with id [id] is in flight: every earlier
+    submission of that id has been answered by every child *)
+Inductive idle_ev (n : nat) (id : str) : list input -> Prop :=
+| idle_ev_none pre : no_cevent id pre -> idle_ev n id pre
+| idle_ev_done pre w :
+    idle_ev n id pre -> no_cevent id w -> all_replied n id w = true ->
+    idle_ev n id (pre ++ CEvent id :: w).
+
+Inductive idle_cnt (n : nat) (sub : str) : list input -> Prop :=
+| idle_cnt_none pre : no_ccount sub pre -> idle_cnt n sub pre
+| idle_cnt_done pre w :
+    idle_cnt n sub pre -> no_ccount sub w -> all_counted n sub w = true ->
+    idle_cnt n sub (pre ++ CCount sub :: w).
+
+(** a request is only ever submitted while no request with the same id is in flight *)
+Definition no_overlap (n : nat) (t : list input) : Prop :=
+  and (forall pre id rest, t = pre ++ CEvent id :: rest -> idle_ev n id pre)
+      (forall pre sub rest, t = pre ++ CCount sub :: rest -> idle_cnt n sub pre).
 
 (* ------------------------------------------------------------------ *)
 (** * Oracles: the property texts as boolean judgements of an observed trace.
